@@ -36,6 +36,24 @@ pub fn check(c: &Case) -> CheckResult {
     Ok(CaseInfo::new(big && !gens::is_anchor(Ty::XorShift, &c.seed.bytes) && c.steps > 0).class(format!("seed:{}", c.seed.class)))
 }
 
+fn model_inverse() -> std::sync::Arc<crate::gf2::Matrix> {
+    use crate::gf2::{Bits, Matrix};
+    use std::sync::{Arc, OnceLock};
+    static CACHE: OnceLock<Arc<Matrix>> = OnceLock::new();
+    CACHE
+        .get_or_init(|| {
+            let cols = (0..128)
+                .map(|i| {
+                    let mut m = Xor128::from_seed(&Bits::unit(i).to_bytes(16));
+                    m.next();
+                    Bits::from_bytes(&m.state_bytes())
+                })
+                .collect();
+            Arc::new(Matrix { n: 128, cols }.inverse().expect("xor128 is invertible"))
+        })
+        .clone()
+}
+
 pub fn def(ctx: &Ctx) -> PropDef {
     let t = ctx.tier;
     let steps = prop_oneof![3 => Just(1usize), 4 => 2usize..=16, 3 => 17usize..=300, 1 => 301usize..=5000];
@@ -47,6 +65,18 @@ pub fn def(ctx: &Ctx) -> PropDef {
         assumptions: vec!["refmodel::misc::Xor128 is the xor128 step of the paper (validated against the crate's published vector and the Python model)".into()],
         subs: vec![
             PSub::boxed("stream", t.pick(40_000, 6_000_000), move || (gens::seed_for(Ty::XorShift, false), steps.clone()).prop_map(|(seed, steps)| Case { seed, steps }).boxed(), check),
+            PSub::boxed("preimage", t.pick(20_000, 2_000_000), || {
+                (gens::target_state(Ty::XorShift), 1usize..=8)
+                    .prop_map(|(target, back)| {
+                        let mut s = crate::gf2::Bits::from_bytes(&target.bytes);
+                        let ti = model_inverse();
+                        for _ in 0..back {
+                            s = ti.apply(&s);
+                        }
+                        Case { seed: Seed { class: format!("pre:{}", target.class), bytes: s.to_bytes(16) }, steps: back + 3 }
+                    })
+                    .boxed()
+            }, check),
             PSub::boxed("long", t.pick(30, 100), move || gens::seed_for(Ty::XorShift, false).prop_map(move |seed| Case { seed, steps: long }).boxed(), check),
         ],
     }
